@@ -8,7 +8,7 @@
 // (GORACE="halt_on_error=0 exitcode=0 log_path=…") writes one report per racing pair of accesses;
 // checks/C35.py maps the two stacks of a report to the access facts of the extractor.
 //
-//	vh_races_race [-ms 1500] [-seed 1] [-procs 8] [-scenario all|collector|sentcache|stress|transmit|config|watcher|peers|metrics|envcache]
+//	vh_races_race [-ms 1500] [-seed 1] [-procs 8] [-scenario all|collector|sentcache|stress|transmit|config|watcher|peers|sharder|metrics|envcache]
 //
 // Output: one line `scenario <name> ops=<n>` per scenario, then `RACES-DONE`.
 package main
@@ -438,6 +438,51 @@ func scPeers() int64 {
 	return ops
 }
 
+// sharder: real DeterministicSharder on the real pubsub peer management (LocalPubSub): routers ask
+// WhichShard / MyShard while peers join and leave (every membership change fires the sharder's
+// callback, loadPeerList, in its own goroutine) and while further sharders are being started
+// against the live peer list (as at process start, when membership messages already flow).
+func scSharder() int64 {
+	conf := mockConfig(1)
+	ps := &pubsub.LocalPubSub{Config: conf, Metrics: &metrics.NullMetrics{}}
+	must(ps.Start())
+	p := &peer.RedisPubsubPeers{Config: conf, Metrics: &metrics.NullMetrics{}, Logger: &logger.NullLogger{},
+		PubSub: ps, Clock: clockwork.NewRealClock(), InstanceID: "self", Done: make(chan struct{})}
+	must(p.Start())
+	must(p.Ready())
+	mk := func() *sharder.DeterministicSharder {
+		sh := &sharder.DeterministicSharder{Config: conf, Logger: &logger.NullLogger{}, Peers: p}
+		must(sh.Start())
+		return sh
+	}
+	var cur atomic.Pointer[sharder.DeterministicSharder]
+	cur.Store(mk())
+	topic := ps.FormatTopic("peers")
+	which := func(i int) { cur.Load().WhichShard(fmt.Sprintf("trace-%d", i)) }
+	ops := run(budget,
+		func(i int) {
+			ps.Publish(context.Background(), topic, fmt.Sprintf("Rhttp://h%d:8081,id%d", i%7, i%7))
+			time.Sleep(100 * time.Microsecond)
+		},
+		func(i int) {
+			ps.Publish(context.Background(), topic, fmt.Sprintf("Uhttp://h%d:8081,id%d", i%5, i%5))
+			time.Sleep(130 * time.Microsecond)
+		},
+		which, which, which,
+		func(i int) { cur.Load().MyShard(); time.Sleep(20 * time.Microsecond) },
+		func(i int) {
+			if i < 150 {
+				cur.Store(mk())
+			}
+			time.Sleep(2 * time.Millisecond)
+		},
+	)
+	close(p.Done)
+	time.Sleep(5 * time.Millisecond)
+	ps.Stop()
+	return ops
+}
+
 // metrics: real MultiMetrics: registration, updates of every kind, reads.
 func scMetrics() int64 {
 	conf := mockConfig(1)
@@ -487,7 +532,7 @@ func main() {
 		f    func() int64
 	}{
 		{"collector", scCollector}, {"sentcache", scSentCache}, {"stress", scStress}, {"transmit", scTransmit},
-		{"config", scConfig}, {"watcher", scWatcher}, {"peers", scPeers}, {"metrics", scMetrics}, {"envcache", scEnvCache},
+		{"config", scConfig}, {"watcher", scWatcher}, {"peers", scPeers}, {"sharder", scSharder}, {"metrics", scMetrics}, {"envcache", scEnvCache},
 	}
 	for _, s := range all {
 		if *sc != "all" && *sc != s.name {
